@@ -182,20 +182,29 @@ def gen_axis_item(rng, n, p_int=0.35):
     return C.sl()
 
 
-def gen_chain(rng, shape, steps, need_drop=False):
+def gen_chain(rng, shape, steps, need_drop=False, pattern=None):
     """Chain of valid items (JSON form) each leaving at least one non-empty axis."""
     chain = []
     shape = list(shape)
+    # targeted pattern "ranges": every step cuts ranges only, by different amounts per axis, so that state
+    # kept per axis by an earlier step (lazily composed slices) meets axes of unequal remaining lengths
+    ranges_only = pattern == "ranges" or (pattern is None and steps >= 2 and rng.random() < 0.12)
     # a targeted pattern: first cut a range that does not start at 0 on every axis, then index
     # with integers - what later steps pick is then relative to a shifted origin
-    offset_then_int = steps >= 2 and rng.random() < 0.45
+    offset_then_int = steps >= 2 and not ranges_only and rng.random() < 0.45
     # another targeted pattern: every step drops exactly one axis (coupled pairs lose their axes one at a time)
-    one_by_one = steps >= 2 and not offset_then_int and rng.random() < 0.4
+    one_by_one = steps >= 2 and not offset_then_int and not ranges_only and rng.random() < 0.4
     for s in range(steps):
         if not shape:
             break
         for _ in range(30):
-            if one_by_one and len(shape) >= 2:
+            if ranges_only:
+                items = []
+                for n in shape:
+                    a = rng.randint(0, max(0, n - 2)) if n >= 2 else 0
+                    b = rng.randint(a + 1, n)
+                    items.append(C.sl(a if rng.random() < 0.7 else a - n, b if rng.random() < 0.6 else (None if b == n else b - n)))
+            elif one_by_one and len(shape) >= 2:
                 items = [C.sl() for _ in shape]
                 k = rng.randrange(len(shape))
                 items[k] = rng.randint(-shape[k], shape[k] - 1)
@@ -207,7 +216,7 @@ def gen_chain(rng, shape, steps, need_drop=False):
                 items = [gen_axis_item(rng, n, 0.45 if need_drop else 0.3) for n in shape]
             if all(not isinstance(i, dict) for i in items):
                 items[rng.randrange(len(items))] = C.sl()
-            r = rng.random()
+            r = 1.0 if ranges_only else rng.random()
             if r < 0.2:
                 # (an Ellipsis that stands for no axis at all is C01's known finding)
                 i = rng.randrange(len(items))
